@@ -15,6 +15,9 @@ CLAIMED = {
  "C16": ("Hypothesis set/read histories on ConfidenceLevel and generated profile/contour requests vs. scipy.stats.chi2 / closed forms",
          "Generated-input search: (a) construct+set+read histories on one ConfidenceLevel over n=1..50 with tails near CL->0 and CL->1, judged in CL space against chi2(n).cdf, erf and 1-exp(-s^2/2); (b) monotonicity on sorted samples and the tabulated 1/2/3-sigma values; (c) the cl actually handed to iminuit.mncontour (spied from the harness) and the level objects of ContoursProfiler; (d) arrow specs of profile(cl/low/high, arrows) for both backends on analytic quadratic costs (central vs one-sided 2cl-1 rule, y-y_min=sigma_i^2, analytic x crossing).",
          "Trusts scipy.stats.chi2 as reference; CL-space absolute tolerance 2e-15 (+1e-12 relative to min(cl,1-cl)); ndim is never changed on a live object; arrow x within 2e-2 sigma.", "DESIGN.md §4 C16"),
+ "C17": ("Hypothesis-generated values/uncertainties (carry cases constructed) and fitted problems; printed strings parsed back and judged with exact Decimal arithmetic",
+         "Generated-input search with validity predicates on the *printed text*: displayed uncertainty == correctly rounded true uncertainty at n significant digits; |displayed value - true| <= half a unit of the uncertainty's last displayed digit; value shown down to that digit when |v|>=u; fixed marker; plain == LaTeX; report()/file preface/result dict of fitted xy/indexed/hist problems (fixed, constrained, asymmetric, changed-after-fit) list exactly the names/values/uncertainties/correlations/gof/ndf/probability the fit holds, each within half a unit of its own last digit.",
+         "Trusts python's decimal module for reference rounding; held state is read before and after report() because MINOS inside report may move the optimum within minimizer tolerance; one open known finding (KF-C17-1: compact table double rounding, <=0.55 unit) excluded by bug model.", "DESIGN.md §4 C17"),
 }
 NOT_YET = "check not built yet in this session (work in progress; see DESIGN.md §10 build order)"
 
